@@ -74,6 +74,8 @@ type Cluster struct {
 	locks      map[string]*lockState
 	waitq      map[string][]*Session // FIFO of waiters per key: a released lock goes to the first waiter, as in Postgres
 	sessSeq    int64
+	// isolationAsked counts BeginTX calls asking for an isolation level other than default / read committed
+	isolationAsked map[string]int
 
 	shim *pgshim.Shim
 	db   *bun.DB
@@ -500,3 +502,16 @@ func (c *Cluster) endTxnLocked(s *Session, t *Txn) {
 }
 
 func (c *Cluster) String() string { return fmt.Sprintf("cluster(%d ledgers)", len(c.data)) }
+
+
+// IsolationAsked returns the isolation levels other than default / READ COMMITTED that store
+// transactions were opened with (level name -> count). memstore does not model them.
+func (c *Cluster) IsolationAsked() map[string]int {
+	c.mu.Lock()
+	defer c.mu.Unlock()
+	ret := map[string]int{}
+	for k, v := range c.isolationAsked {
+		ret[k] = v
+	}
+	return ret
+}
